@@ -4,8 +4,8 @@
 (* over every base type, an enum, a struct and typedefs of each kind (typedef    *)
 (* of a primitive, of an enum, of a struct, of containers, of binary, typedef of  *)
 (* a typedef), in every position a value of that type can be written: a           *)
-(* constant, the default of an optional / required field, no default, and the      *)
-(* same through one more typedef.  All of these programs are valid: the            *)
+(* constant, the default of an optional / required field, no default, a redacted   *)
+(* or unlogged field or parameter, and the same through one more typedef.  All of these programs are valid: the            *)
 (* generator must accept them and the result must build.                            *)
 (***************************************************************************)
 EXTENDS Integers, Sequences, TLC, Json
@@ -19,7 +19,10 @@ Types == { Leaf(n) : n \in Leaves }
          \cup { [k |-> "list", n |-> "", a |-> x, b |-> ""] : x \in Leaves }
          \cup { [k |-> "set", n |-> "", a |-> x, b |-> ""] : x \in Leaves \ {"P", "TP", "TTP", "TL", "TM", "TSet"} }
          \cup { [k |-> "map", n |-> "", a |-> x, b |-> y] : x \in Keys, y \in Leaves }
-Positions == {"const", "optdefault", "reqdefault", "optplain", "reqplain", "typedefconst", "typedefdefault", "param", "return"}
+Positions == {"const", "optdefault", "reqdefault", "optplain", "reqplain", "typedefconst", "typedefdefault", "param", "return",
+              \* fields and parameters whose value is kept out of logs and text (go.redact / go.nolog): the code that would have
+              \* rendered the value is not emitted, and neither may be what only that code needs (imports, helpers)
+              "optredact", "reqredact", "optnolog", "reqnolog", "paramredact"}
 
 \* string literals cannot be cast to binary in this dialect (compile/constant_value.go: ConstantString.Link), so a
 \* type that contains binary has no constants or defaults
@@ -34,5 +37,7 @@ Next == pos = "" /\ \E p \in Positions, t \in Types : ValidShape(p, t) /\ pos' =
 Spec == Init /\ [][Next]_<<pos, ty>>
 
 
-EmitCase == (pos # "" /\ TLCGet("distinct") % EmitMod = EmitPick) => PrintT(<<"CASE", ToJson([pos |-> pos, ty |-> ty])>>)
+\* the sample always holds the unlogged leaf types (few, and each needs its own support code)
+Always == pos \in {"optredact", "reqredact", "optnolog", "reqnolog", "paramredact"} /\ ty.k = "leaf"
+EmitCase == (pos # "" /\ (Always \/ TLCGet("distinct") % EmitMod = EmitPick)) => PrintT(<<"CASE", ToJson([pos |-> pos, ty |-> ty])>>)
 =============================================================================
